@@ -154,6 +154,27 @@ def rule_types(tree: Tree) -> RuleResult:
         ok = ok and steps in (["index += length + 4"], ["index += 4 + length"])
     r.ob(ok, Finding("T4t", "session:Session.handle_decrypted_tls_13_handshake_record:finished-switch",
                      "the handshake→application key switch must happen exactly at a Finished message (type 20) of the direction being decrypted, walking messages as type(1) length(3) body", hd.module.line(hd.node)))
+    # messages are reassembled across records (a Certificate is often longer than one record): per direction the walker starts from what the previous record left
+    # incomplete, handles a message only when all of it is there, and keeps the incomplete tail
+    r.instances += 1
+    pre, post = {}, {}
+    for n in cfg.nodes:
+        if n.kind == "stmt" and isinstance(n.ast, ast.Assign):
+            tgt, val = dotted(n.ast.targets[0]), n.ast.value
+            facts = cfg.facts_at(n.id)
+            d = "server" if fact_holds(facts, "isserver", True) else "client" if fact_holds(facts, "isserver", False) else None
+            if tgt == "plaintext" and isinstance(val, ast.BinOp) and isinstance(val.op, ast.Add) and dotted(val.right) == "plaintext" and (dotted(val.left) or "").startswith("self.") and d:
+                pre[d] = dotted(val.left)
+            if tgt and tgt.startswith("self.") and src(val) == "plaintext[index:]" and d:
+                post[d] = tgt
+    whole = any(isinstance(n, ast.If) and any(isinstance(b, ast.Break) for b in n.body) and " ".join(src(n.test).split()) in
+                ("index + 4 + length > len(plaintext)", "index + length + 4 > len(plaintext)", "len(plaintext) < index + 4 + length", "len(plaintext) < index + length + 4")
+                for n in body_walk(hd.node))
+    ok = set(pre) == {"server", "client"} and pre == post and pre["server"] != pre["client"] and whole
+    r.ob(ok, Finding("T4t", "session:Session.handle_decrypted_tls_13_handshake_record:reassembly",
+                     f"TLS 1.3 handshake messages split over several records must be reassembled per direction (prefix {pre}, kept tail {post}, complete-message test {whole}): "
+                     f"when the record that holds the Finished begins with the rest of a longer message the walker otherwise starts in the middle of it, never sees the Finished and "
+                     f"the application keys of that direction are never installed", hd.module.line(hd.node)))
     # update_keys has exactly this one caller
     r.instances += 1
     from ..callgraph import CallGraph
